@@ -94,6 +94,15 @@ theorem caller_attr_is_one_value (op param a : Str) (x : Str) (hop : validName o
   apply XmlDocP.parseDoc_serialize
   simp [wf, wfList, hop, hparam, ha]
 
+/-- The `<rpc>` envelope (`RPC._wrap`): a peer reads back the operation element as it was built and the
+    message-id as it was generated — for every well-formed operation tree and every id string, under
+    both namespace spellings of the profiles. -/
+theorem rpc_envelope_roundtrip (pfx mid n : Str) (attrs : List (Str × Str)) (cs : List XNode)
+    (hp : XmlDocP.StdPfx pfx) (hop : wf (.elem n attrs cs) = true) :
+    parseDoc (serialize (rpcTree pfx mid (.elem n attrs cs))) = some (rpcTree pfx mid (.elem n attrs cs)) ∧
+    attrOf "message-id".toList (rpcTree pfx mid (.elem n attrs cs)) = some mid :=
+  XmlDocP.rpc_roundtrip pfx mid n attrs cs hp hop
+
 /-! Non-vacuity -/
 example : serialize (.elem "g".toList [] [.elem "f".toList [("s".toList, "a\"<".toList)] [.text "</f><k/>".toList]])
     = "<g><f s=\"a&quot;&lt;\">&lt;/f&gt;&lt;k/&gt;</f></g>".toList := by decide +kernel
